@@ -215,3 +215,40 @@ Proof.
     split; [vm_compute; discriminate|]. split; [right; vm_compute; reflexivity|].
     split; [vm_compute; reflexivity|exact Hio].
 Qed.
+
+(* ------------------------------------------------------------------ *)
+(* Explicit handles (Avl/Session.v): a mutable view that stays open across operations, opened anew
+   only after the buffer was extended or a view was requested; includes trees initialised with a
+   capacity smaller than the record count of their buffer and used through the same handle. *)
+From Stevia Require Import Avl.Session Avl.SessionFacts.
+Open Scope N_scope.
+Theorem C08_session_final_u8 :
+  forall (capacity nrec : N) (keep : bool) (ops : list op),
+    capacity <= nrec -> nrec <= 254 ->
+    growth_okw_sess 8 (spec_init_sess capacity nrec keep) ops ->
+    exists (s : st) (live : bool) (t : itree) (fr : list N) (term : N),
+      final_sess 8 (init_sess capacity nrec keep) ops = Ok (mkSess s live) /\
+      Inv 8 s t fr term /\ LinkSteps.sizecond 8 s /\
+      mkSSess (abs_of s t) live = final_s_sess (spec_init_sess capacity nrec keep) ops.
+Proof. exact final_sess_refines_u8. Qed.
+Print Assumptions C08_session_final_u8.
+
+Theorem C08_session_final_u32 :
+  forall (capacity nrec : N) (keep : bool) (ops : list op),
+    capacity <= nrec -> nrec + 1 < 2 ^ 32 ->
+    growth_okw_sess 32 (spec_init_sess capacity nrec keep) ops ->
+    exists (s : st) (live : bool) (t : itree) (fr : list N) (term : N),
+      final_sess 32 (init_sess capacity nrec keep) ops = Ok (mkSess s live) /\
+      Inv 32 s t fr term /\ LinkSteps.sizecond 32 s /\
+      mkSSess (abs_of s t) live = final_s_sess (spec_init_sess capacity nrec keep) ops.
+Proof. exact final_sess_refines_u32. Qed.
+Print Assumptions C08_session_final_u32.
+
+Theorem C08_session_capacity_stable :
+  forall (bits : N) (s : st) (t : itree) (fr : list N) (term : N) (o : op) (x' : sess) (y : out) (log : list Z),
+    Inv bits s t fr term -> LinkInsert.okbits bits ->
+    step_sess bits (mkSess s true) o = Ok (x', y, log) -> o <> OOpenMut ->
+    cap (c_st x') = cap s /\ (no_ext o -> length (nodes (c_st x')) = length (nodes s)).
+Proof. exact sess_capacity_stable. Qed.
+Print Assumptions C08_session_capacity_stable.
+
